@@ -16,6 +16,16 @@ def run(tier, seed):
     vex = tracecheck.split_executions(vp)
     tracecheck.validate(ck, PID, "verify", "DKGTrace", "DKGTrace.cfg", vex, classify=lambda ev, r: "verifier-%s" % ev.get("e"), chunks=1)
     ck.add_cases("verifier-catalogue", len(vex[0]), [str((e.get("e"), e.get("y"), e.get("m"), e.get("r"), str(e.get("s"))[:20], e.get("mut"))) for e in vex[0] if e.get("e") in ("DssVer", "NtsVer")])
+    D = dkg_common.directed
+    # a signer that was honest in key generation and uses a damaged share afterwards, in every position (n >= 2t+2 and n = 2t+1),
+    # alone and next to a party with the library's faulty switch
+    dirs = [D("dss", 4, 1, [0, 5, 0, 0], 1), D("dss", 4, 1, [5, 0, 0, 0], 2), D("dss", 4, 1, [0, 0, 0, 5], 3),
+            D("dss", 5, 1, [0, 0, 5, 0, 0], 4), D("dss", 5, 2, [0, 5, 0, 0, 0], 5), D("dss", 3, 1, [0, 0, 5], 6),
+            D("nts", 4, 1, [0, 5, 0, 0], 7), D("nts", 4, 1, [0, 0, 0, 5], 8), D("nts", 5, 2, [5, 0, 0, 0, 0], 9),
+            D("nts", 5, 1, [0, 0, 0, 5, 0], 10), D("nts", 3, 1, [0, 5, 0], 11)]
+    if not q:
+        dirs += [D(p, n, t, [5 if k == w else 0 for k in range(n)], 20 + 7 * n + w) for p in ("dss", "nts") for n, t in ((6, 2), (7, 3), (7, 2)) for w in range(n)]
+    dkg_common.run_directed(ck, PID, dirs)
     dkg_common.run_proto(ck, PID, "nts", 48 if q else 1200, seed, 5 if q else 7)
     dkg_common.run_proto(ck, PID, "dss", 24 if q else 600, seed, 4 if q else 6)
     ck.cov["rule"] = ("simulated key generation + signing runs (new-TSch and threshold DSS, before and after refresh) with faulty signers; "
